@@ -9,6 +9,7 @@
 // Author: Christian Kellner <kellner@bio.lmu.de>
 
 #include "DataSpace.hpp"
+#include <nix/Exception.hpp>
 #include "H5Exception.hpp"
 
 
@@ -68,6 +69,12 @@ NDSize DataSpace::extent() const {
 
 
 void DataSpace::hyperslab(const NDSize &count, const NDSize &start, H5S_seloper_t op) {
+    // HDF5 reads as many entries from start and count as the data space has dimensions
+    int rank = H5Sget_simple_extent_ndims(hid);
+    if (rank < 0 || count.size() < static_cast<size_t>(rank) || start.size() < static_cast<size_t>(rank)) {
+        throw IncompatibleDimensions("count and offset must have at least as many entries as the data has dimensions",
+                                     "DataSpace::hyperslab");
+    }
     HErr status = H5Sselect_hyperslab(hid, op, start.data(), nullptr, count.data(), nullptr);
     status.check("DataSpace::hyperslab(): H5Sselect_hyperslab() failed!");
 }
